@@ -504,14 +504,18 @@ def backfillRev (inc : Int) (ks : List Key) (id : Int) : List Key :=
 /-- single struct, create.go:182-186 -/
 def backfillOne (k : Key) (id : Int) : Key := if k = 0 then id else k
 
-/-- `[]map[string]interface{}`, create.go:128-147: EVERY map gets `insertID`, stepping by 1; nil maps are
-    skipped but still counted (`present` = map non-nil); `none` = no key written -/
-def backfillMaps (reversed : Bool) (present : List Bool) (id : Int) : List (Option Int) :=
-  let start := if reversed then id - ((present.length : Int) - 1) else id
-  let rec go : List Bool → Int → List (Option Int)
+/-- `[]map[string]interface{}`, create.go:128-147: the maps get `insertID`, stepping by 1 per slice POSITION.
+    `ms`: `none` = nil map (skipped but still counted), `some k` = a map whose key entry is `k` (`0` = no key entry /
+    zero value).  `skipPreset` (regenerated fact `Gen.backfillMapsSkipPreset`): the loop looks at the map before writing
+    and leaves a map that already carries a non-zero key alone; the unrepaired loop writes into EVERY non-nil map
+    (finding F26).  Result: the key entry of every map afterwards. -/
+def backfillMaps (skipPreset reversed : Bool) (ms : List (Option Key)) (id : Int) : List (Option Key) :=
+  let start := if reversed then id - ((ms.length : Int) - 1) else id
+  let rec go : List (Option Key) → Int → List (Option Key)
     | [], _ => []
-    | p :: ps, i => (if p then some i else none) :: go ps (i + 1)
-  go present start
+    | none :: ps, i => none :: go ps (i + 1)
+    | some k :: ps, i => some (if skipPreset && k != 0 then k else i) :: go ps (i + 1)
+  go ms start
 
 /-- result of the Exec: `RowsAffected`, `LastInsertId` (none = driver error) -/
 structure ExecResult where
@@ -520,7 +524,8 @@ structure ExecResult where
   deriving Repr
 
 /-- the guard prefix of the no-RETURNING branch (create.go:100-125) followed by the slice loops.
-    `hasAutoPk` = `PrioritizedPrimaryField != nil && HasDefaultValue`. -/
+    `hasAutoPk` = the guards on the key pass (`backfillGuard`; for an auto-increment integer key:
+    `PrioritizedPrimaryField != nil && HasDefaultValue`). -/
 def createBackfillSlice (reversed hasAutoPk : Bool) (inc : Int) (ks : List Key) (r : ExecResult) : List Key :=
   if r.rowsAffected = 0 then ks
   else match r.lastInsertId with
@@ -529,6 +534,29 @@ def createBackfillSlice (reversed hasAutoPk : Bool) (inc : Int) (ks : List Key) 
       if id ≤ 0 then ks
       else if !hasAutoPk then ks
       else if reversed then backfillRev inc ks id else backfillFwd inc ks id
+
+/-- the guards on the KEY in front of the back-fill (create.go:125-131): the prioritized primary field must have a default
+    value (`hasDefault` = `PrioritizedPrimaryField != nil && HasDefaultValue`) and — `guardKind`, regenerated fact
+    `Gen.backfillGuardsKeyKind` — be a key the insert id can stand for: `autoInc` = `field.AutoIncrement`, `intType` =
+    `GORMDataType ∈ {Int, Uint}`.  The unrepaired guard tests `hasDefault` only (finding F25). -/
+def backfillGuard (guardKind hasDefault autoInc intType : Bool) : Bool :=
+  hasDefault && (!guardKind || autoInc || intType)
+
+/-- the no-RETURNING back-fill of a slice of structs whose prioritized primary field is described by
+    (`hasDefault`, `autoInc`, `intType`) -/
+def createBackfill (guardKind reversed hasDefault autoInc intType : Bool) (inc : Int) (ks : List Key) (r : ExecResult) : List Key :=
+  createBackfillSlice reversed (backfillGuard guardKind hasDefault autoInc intType) inc ks r
+
+/-- the same guard prefix in front of the slice-of-maps loop (`keyOk` = `backfillGuard …`, or `true` without a schema:
+    `Table("t").Create(&maps)` stores the insert id as "@id") -/
+def createBackfillMaps (skipPreset reversed keyOk : Bool) (ms : List (Option Key)) (r : ExecResult) : List (Option Key) :=
+  if r.rowsAffected = 0 then ms
+  else match r.lastInsertId with
+    | none => ms
+    | some id =>
+      if id ≤ 0 then ms
+      else if !keyOk then ms
+      else backfillMaps skipPreset reversed ms id
 
 /-- RETURNING path: scan.go `Scan` with `ScanUpdate`: row `j` of the result set is scanned into element
     `db.RowsAffected = j`; surplus rows are ignored, surplus elements untouched.  `rows` = returned keys. -/
@@ -559,18 +587,26 @@ def createSlice (returning : Bool) (m : Int) (ks : List Key) : List Key × List 
              else createBackfillSlice true true 1 ks ⟨rows.length, lastRowId rows⟩
   (mem, rows, m')
 
-/-- `Create` from a slice of `n` non-nil maps through a model with an auto-increment key, SQLite-like dialector,
-    table maximum `m`.  Result: the key each of the caller's `n` maps carries afterwards and the length of the
+/-- `Create` from a slice of `n` non-nil maps WITHOUT key entries through a model with an auto-increment key, SQLite-like
+    dialector, table maximum `m`.  Result: the key each of the caller's `n` maps carries afterwards and the length of the
     caller's slice; `none` = Create returns an error.
     * no RETURNING: create.go:128-147 (`backfillMaps`).
     * RETURNING, `*[]map[string]interface{}`: scan.go `case *[]map[string]interface{}` APPENDS one new map per
       returned row to the caller's slice; the caller's own maps are not touched.
     * RETURNING, `[]map[string]interface{}` by value: scan.go falls into the struct/slice branch and `rows.Scan`
       into a map element fails (`unsupported Scan … into type *map[string]interface {}`). -/
-def createMaps (returning ptrDest : Bool) (m : Int) (n : Nat) : Option (List (Option Key) × Nat) :=
+def createMaps (skipPreset returning ptrDest : Bool) (m : Int) (n : Nat) : Option (List (Option Key) × Nat) :=
   if returning then
     if ptrDest then some (List.replicate n none, n + n) else (if n = 0 then some ([], 0) else none)
-  else some (backfillMaps true (List.replicate n true) (m + n), n)
+  else some (backfillMaps skipPreset true (List.replicate n (some 0)) (m + n), n)
+
+/-- `Create(&maps)` WITHOUT RETURNING from non-nil maps whose key entries are `ks` (`0` = no entry) through a model with an
+    auto-increment integer key, SQLite-like dialector (`LastInsertIDReversed`), table maximum `m`: a map without a key is
+    sent with NULL and receives a generated id, a preset key is stored as is (`dbInsert`).  Returns (key entry of every map
+    afterwards, row keys, new max). -/
+def createMapsKeys (skipPreset : Bool) (m : Int) (ks : List Key) : List (Option Key) × List Key × Int :=
+  let (rows, m') := dbInsert m ks
+  (createBackfillMaps skipPreset true true (ks.map some) ⟨rows.length, lastRowId rows⟩, rows, m')
 
 /-! ## (v) `CreateInBatches` slicing (finisher_api.go:35-50) -/
 
